@@ -140,5 +140,13 @@ META["C19"] = {
     "note": "level = partial for the race-freedom clause; the rest is proof + correspondence.",
 }
 
+META["C08"] = {
+    "category": "proof",
+    "design_ref": "DESIGN.md section 5 / C08",
+    "technique": "Lean 4: an interleaving semantics for any number of threads of lock-guarded read/modify/write sections at Database-call granularity (Lock blocks while held; read, write and unlock are separate schedulable steps); a lock-table/thread invariant ('who has read a collection under its lock still sees the stored value') preserved by every step; progress (no deadlock) ; by induction over arbitrary schedules: no update lost, nothing else stored, conditional additions leave no duplicate, same members as sequential execution. Correspondence: real goroutines of the real Actor under a cooperative random scheduler vs. sequential execution.",
+    "text": "Unbounded in threads, sections and schedules on the model. The step from pub's code to the section shape is C09's lock-discipline theorem plus this run-time differential check; exhaustive enumeration of interleavings up to a preemption bound is not implemented (random schedules only).",
+    "note": "Multiplicity of unconditional additions is checked at run time (sorted lists compared), not proved. Runtime data races are the race detector's business (thorough tier).",
+}
+
 _ALL = ["C%02d" % i for i in range(1, 21)]
 NOT_APPLICABLE = [{"property_id": p, "reason": PENDING} for p in _ALL if p not in META]
